@@ -185,18 +185,35 @@ fn f3(x: &DVector<f64>, a: f64, b: f64, c: f64) -> DVector<f64> {
     x.map(|v| v * a + b * c)
 }
 
+/// a user-defined basis function type of arity N (for the long parameter lists; closures stop at 10 arguments)
+pub struct AnyN<const N: usize>;
+pub struct AnyNArgs<const N: usize>;
+impl<const N: usize> varpro::prelude::BasisFunction<f64, AnyNArgs<N>> for AnyN<N> {
+    fn eval(&self, x: &DVector<f64>, params: &[f64]) -> DVector<f64> {
+        let s: f64 = params[..N].iter().sum();
+        x.map(|v| v * s)
+    }
+    const ARGUMENT_COUNT: usize = N;
+}
+
 pub fn apply(b: SeparableModelBuilder<f64>, s: &Sym) -> SeparableModelBuilder<f64> {
     match s {
         Sym::Func { names, arity } => match arity {
             1 => b.function(names.iter().copied(), f1),
             2 => b.function(names.iter().copied(), f2),
             3 => b.function(names.iter().copied(), f3),
+            9 => b.function(names.iter().copied(), AnyN::<9>),
+            10 => b.function(names.iter().copied(), AnyN::<10>),
+            12 => b.function(names.iter().copied(), AnyN::<12>),
             _ => unreachable!(),
         },
         Sym::Pd { name, arity } => match arity {
             1 => b.partial_deriv(*name, f1),
             2 => b.partial_deriv(*name, f2),
             3 => b.partial_deriv(*name, f3),
+            9 => b.partial_deriv(*name, AnyN::<9>),
+            10 => b.partial_deriv(*name, AnyN::<10>),
+            12 => b.partial_deriv(*name, AnyN::<12>),
             _ => unreachable!(),
         },
         Sym::Inv => b.invariant_function(|x: &DVector<f64>| x.clone()),
